@@ -57,6 +57,9 @@ def oracle(ck, sc, rec, label):
                 if o['ok'] != want_ok:
                     ck.fail('get_solution/availability', 'get_solution(best=True) must fail exactly when no best networks exist yet', inp,
                             expected=want_ok, actual=o['ok'])
+                if o.get('shared'):
+                    ck.fail('snapshot_isolated/shares-objects', 'a copy=True solution shares mutable objects (reachable from its nets / conditions) '
+                            'with the solver, so later in-place mutation of the solver can change it', inp, expected=[], actual=o['shared'])
             continue
         if k not in ('eval', 'residuals'):
             continue
